@@ -1,3 +1,168 @@
-// unit png_io: harnesses for sdk/src/asset_handlers/png_io.rs (included by the cfg(kani) hook at the end of that file)
+// unit png_io: sdk/src/asset_handlers/png_io.rs (included by the cfg(kani) hook at the end of that file)
+// C12: for every stream the PNG handler accepts, the box map is ordered by offset, non-overlapping, inside the file,
+// and covers every byte of the file (the C2PA chunk being one of the boxes).
 #[allow(unused_imports)]
 use super::*;
+
+// the contract, shared by all box-map checks: Ok(()) or the violated clause
+fn box_map_contract(boxes: &[BoxMap], file_len: u64) -> std::result::Result<(), &'static str> {
+    let mut pos = 0u64;
+    for b in boxes {
+        if b.range_start < pos {
+            return Err("unordered_or_overlapping");
+        }
+        if b.range_start > pos {
+            return Err("gap_between_boxes");
+        }
+        let end = match b.range_start.checked_add(b.range_len) {
+            Some(e) => e,
+            None => return Err("overflow"),
+        };
+        if end > file_len {
+            return Err("outside_file");
+        }
+        pos = end;
+    }
+    if pos != file_len {
+        return Err("trailing_bytes_uncovered");
+    }
+    Ok(())
+}
+
+fn chunk(name: &[u8; 4], data_len: usize) -> Vec<u8> {
+    let mut v = Vec::new();
+    v.extend_from_slice(&(data_len as u32).to_be_bytes());
+    v.extend_from_slice(name);
+    v.extend(std::iter::repeat(0xabu8).take(data_len));
+    v.extend_from_slice(&[1, 2, 3, 4]); // crc (not checked by the scanner)
+    v
+}
+
+#[test]
+fn c12_png_box_map_small_grammar() {
+    let thorough = std::env::var("VERIF_B_TIER").map(|t| t == "thorough").unwrap_or(false);
+    let types: [&[u8; 4]; 6] = [b"IHDR", b"IDAT", b"caBX", b"iTXt", b"IEND", b"zzzz"];
+    let max_chunks = if thorough { 4 } else { 3 };
+    let mut evals = 0usize;
+    let mut nontrivial = 0usize;
+    let mut accepted = 0usize;
+    let mut counts: std::collections::BTreeMap<String, usize> = std::collections::BTreeMap::new();
+    let mut seqs: Vec<Vec<(usize, usize)>> = vec![vec![]];
+    for _ in 0..max_chunks {
+        let mut next = Vec::new();
+        for s in &seqs {
+            for t in 0..types.len() {
+                for dl in 0..=2usize {
+                    let mut s2 = s.clone();
+                    s2.push((t, dl));
+                    next.push(s2);
+                }
+            }
+        }
+        seqs.extend(next.clone());
+        seqs.sort();
+        seqs.dedup();
+    }
+    for s in &seqs {
+        if s.is_empty() {
+            continue;
+        }
+        let mut file: Vec<u8> = PNG_ID.to_vec();
+        for (t, dl) in s {
+            file.extend(chunk(types[*t], *dl));
+        }
+        for trailing in 0..=3usize {
+            let mut f2 = file.clone();
+            f2.extend(std::iter::repeat(0x55u8).take(trailing));
+            // the full file and (quick: a few; thorough: all) truncation points
+            let cuts: Vec<usize> = if thorough { (8..=f2.len()).collect() } else { vec![f2.len(), f2.len().saturating_sub(1), f2.len().saturating_sub(5), 8 + (f2.len() - 8) / 2] };
+            for cut in cuts {
+                let bytes = &f2[..cut];
+                evals += 1;
+                let mut cur = Cursor::new(bytes.to_vec());
+                let got = std::panic::catch_unwind(std::panic::AssertUnwindSafe(|| PngIO {}.get_box_map(&mut cur)));
+                let key: Option<String> = match got {
+                    Err(_) => Some("box_map.png.panic".to_string()),
+                    Ok(Err(_)) => None, // rejected input: nothing to check
+                    Ok(Ok(boxes)) => {
+                        accepted += 1;
+                        if trailing > 0 || cut != f2.len() {
+                            nontrivial += 1;
+                        }
+                        match box_map_contract(&boxes, bytes.len() as u64) {
+                            Ok(()) => None,
+                            Err(c) => Some(format!("box_map.png.{c}")),
+                        }
+                    }
+                };
+                if let Some(k) = key {
+                    let c = counts.entry(k.clone()).or_insert(0);
+                    *c += 1;
+                    if *c <= 3 {
+                        println!("VERIF-B-VIOLATION key={k} input=chunks={:?} trailing={trailing} cut={cut} of {}", s.iter().map(|(t, dl)| (String::from_utf8_lossy(types[*t]).to_string(), *dl)).collect::<Vec<_>>(), f2.len());
+                    }
+                }
+            }
+        }
+    }
+    println!("VERIF-B-SAMPLE chunks=[IHDR/1, caBX/2, IEND/0] trailing=0 -> boxes PNGh,IHDR,C2PA,IEND cover the file");
+    println!("VERIF-B-SAMPLE violation classes this run: {:?} (accepted streams: {accepted})", counts);
+    println!("VERIF-B unit=png_io test=c12_png_box_map_small_grammar evaluations={evals} nontrivial={nontrivial} exhaustive=true domain=PNG signature + 1..={max_chunks} chunks with type in {{IHDR,IDAT,caBX,iTXt,IEND,zzzz}} and 0..=2 data bytes x 0..=3 trailing bytes x truncation points");
+}
+
+// sidecar: the whole file is the manifest container
+#[test]
+fn c12_sidecar_box_map() {
+    use crate::asset_handlers::c2pa_io::C2paIO;
+    let mut evals = 0usize;
+    let mut viol = 0usize;
+    for len in 0..=64usize {
+        let mut cur = Cursor::new(vec![7u8; len]);
+        evals += 1;
+        match (C2paIO {}).get_box_map(&mut cur) {
+            Ok(b) if b.len() == 1 && b[0].names == vec![C2PA_BOXHASH.to_string()] => {}
+            _ => {
+                viol += 1;
+                println!("VERIF-B-VIOLATION key=box_map.sidecar.not_single_c2pa_box input=len={len}");
+            }
+        }
+    }
+    println!("VERIF-B unit=png_io test=c12_sidecar_box_map evaluations={evals} nontrivial={} exhaustive=true domain=sidecar streams of length 0..=64; violations={viol}", evals - 1);
+}
+
+// real fixture files of the other box-hash formats through their handlers: as-is, truncated by 1 byte, with bytes appended
+#[test]
+fn c12_fixture_box_maps() {
+    use crate::jumbf_io::get_assetio_handler;
+    let files = [("CA.jpg", "jpg"), ("C.jpg", "jpg"), ("sample1.gif", "gif"), ("libpng-test.png", "png"), ("sample1.jxl", "jxl")];
+    let mut evals = 0usize;
+    let mut nontrivial = 0usize;
+    let mut counts: std::collections::BTreeMap<String, usize> = std::collections::BTreeMap::new();
+    for (name, ext) in files {
+        let path = crate::utils::test::fixture_path(name);
+        let Ok(bytes) = std::fs::read(&path) else { continue };
+        let Some(h) = get_assetio_handler(ext) else { continue };
+        let Some(bh) = h.asset_box_hash_ref() else { continue };
+        for append in [0usize, 1, 16] {
+            let mut b2 = bytes.clone();
+            b2.extend(std::iter::repeat(0x55u8).take(append));
+            evals += 1;
+            if append > 0 {
+                nontrivial += 1;
+            }
+            let mut cur = Cursor::new(b2.clone());
+            if let Ok(boxes) = bh.get_box_map(&mut cur) {
+                if let Err(c) = box_map_contract(&boxes, b2.len() as u64) {
+                    let k = format!("box_map.{ext}.{c}");
+                    let cnt = counts.entry(k.clone()).or_insert(0);
+                    *cnt += 1;
+                    if *cnt <= 2 {
+                        println!("VERIF-B-VIOLATION key={k} input=fixture {name} with {append} bytes appended");
+                    }
+                }
+            }
+        }
+    }
+    println!("VERIF-B-SAMPLE violation classes this run: {:?}", counts);
+    println!("VERIF-B unit=png_io test=c12_fixture_box_maps evaluations={evals} nontrivial={nontrivial} exhaustive=false domain=fixture files CA.jpg C.jpg sample1.gif libpng-test.png sample1.jxl x {{as is, +1 byte, +16 bytes}}");
+}
